@@ -139,7 +139,8 @@ impl ModelChecker {
         let mut strategy = S::build(strategy_config);
 
         // sort starting states by increasing depth to produce shorter error traces
-        states.sort_by_key(|x| x.depth);
+        // (ties are broken by the trace to make the order independent of HashSet iteration order)
+        states.sort_by_cached_key(|x| (x.depth, format!("{:?}", x.trace)));
         // McSystem is always rolled back to the state before MC run
         let initial_state = self.system.get_state();
         for state in states {
